@@ -728,6 +728,28 @@ func (g *Gen) scopeAt(b *ssa.BasicBlock, edge *ssa.BasicBlock, st *State) map[st
 		} else if v, ok := g.vals[phi]; ok {
 			vars[name] = v
 		}
+		if name == "rangeindex" {
+			// rangeslice: the (unnamed) slice this loop ranges over: kk = phi + 1; kk < len(slice)
+			for _, r := range *phi.Referrers() {
+				inc, ok := r.(*ssa.BinOp)
+				if !ok || inc.Op != token.ADD || inc.X != phi {
+					continue
+				}
+				for _, rr := range *inc.Referrers() {
+					cmp, ok := rr.(*ssa.BinOp)
+					if !ok || cmp.Op != token.LSS || cmp.X != inc {
+						continue
+					}
+					if c, ok := cmp.Y.(*ssa.Call); ok {
+						if bi, ok := c.Call.Value.(*ssa.Builtin); ok && bi.Name() == "len" {
+							if v, ok := g.tryVal(c.Call.Args[0]); ok {
+								vars["rangeslice"] = v
+							}
+						}
+					}
+				}
+			}
+		}
 	}
 	return vars
 }
@@ -773,7 +795,7 @@ func (g *Gen) scopeBlock(b *ssa.BasicBlock, vars map[string]Val, st *State) {
 				continue
 			}
 			if obj, ok := x.Object().(*types.Var); ok && obj != nil && !obj.IsField() {
-				if cur, bound := vars[obj.Name()]; bound && cur.Lazy {
+				if cur, bound := vars[obj.Name()]; bound && (cur.Lazy || cur.Bltn == "localvar") {
 					continue // an address-taken variable is read from its cell, not from a stale load
 				}
 				if v, ok := g.tryVal(x.X); ok && v.Loc == nil && v.S != "" {
@@ -791,7 +813,7 @@ func (g *Gen) scopeBlock(b *ssa.BasicBlock, vars map[string]Val, st *State) {
 			if x.Comment != "" && !x.Heap && !isArrayAlloc(x) {
 				if t, ok := st.locals[x]; ok {
 					et := x.Type().(*types.Pointer).Elem()
-					vars[x.Comment] = Val{S: t, Sort: g.m.sortOf(et), G: et}
+					vars[x.Comment] = Val{S: t, Sort: g.m.sortOf(et), G: et, Bltn: "localvar"}
 				}
 			}
 		}
@@ -1196,7 +1218,10 @@ func (g *Gen) slice(x *ssa.Slice, st *State) {
 			hi = g.val(x.High).S
 		}
 		if x.Max != nil {
-			g.unsup("3-index slice")
+			mx := g.val(x.Max).S
+			g.assert(st, "safe", "slice", and("(<= 0 "+lo+")", "(<= "+lo+" "+hi+")", "(<= "+hi+" "+mx+")", "(<= "+mx+" "+slCap(xv.S)+")"), "3-index slice bounds in range", x.Pos())
+			g.setVal(x, mkSl(slRef(xv.S), add(slOff(xv.S), lo), sub(hi, lo), sub(mx, lo)), x.Type())
+			break
 		}
 		g.assert(st, "safe", "slice", and("(<= 0 "+lo+")", "(<= "+lo+" "+hi+")", "(<= "+hi+" "+slCap(xv.S)+")"), "slice bounds in range", x.Pos())
 		g.setVal(x, mkSl(slRef(xv.S), add(slOff(xv.S), lo), sub(hi, lo), sub(slCap(xv.S), lo)), x.Type())
